@@ -41,6 +41,76 @@ theorem lookup2Y_spec (st : St) (reexec isDef : Bool) (x ok : Name) (m : LExp) (
         | error e => rfl
         | ok r => cases r <;> rfl
 
+theorem litFresh_litClass_assign (isStruct : Bool) : litFresh share true (litClass isStruct) = false := by
+  cases isStruct <;> simp [litFresh, litClass, isStructLit, isArrayLit, share_structLitAssignSets, share_arrayLitSets, share_arrayLitAssignInPlace]
+
+theorem litFresh_litClass_define (isStruct : Bool) : litFresh share false (litClass isStruct) = true := by
+  cases isStruct <;> simp [litFresh, litClass, isStructLit, isArrayLit, share_structLitSetsSlot, share_arrayLitSets, share_arrayLitFresh]
+
+/-- `l = T{…}` / `x := T{…}` with expression operands: the struct is built in a temporary (doComposite) / a fresh array value
+    (arrayLit) from operand slots that are all read before the destination is written -/
+theorem complitY_spec (st : St) (reexec isDef : Bool) (l : LExp) (isStruct : Bool) (zero : Val) (elems : List (Path × RExp)) :
+    complitY share reexec st isDef l isStruct zero elems = Spec.complit st isDef l zero elems := by
+  unfold complitY Spec.complit
+  simp only [share_structLitInTemp, share_litShortcut, Bool.not_true, Bool.false_and, Bool.false_eq_true, if_false, if_true]
+  cases isDef with
+  | true =>
+    simp only [if_true]
+    cases l with
+    | var x =>
+      simp only [bind, Except.bind]
+      rcases evalSlots_cases st (elems.map (·.2)) with ⟨e, h1, h2⟩ | ⟨ss, st1, vs, h1, h2, h3, _⟩
+      · simp [h1, h2]
+      · simp only [h1, h2, h3]
+        cases buildLit zero (elems.map (·.1)) vs with
+        | error e => rfl
+        | ok v => simp [storeShortcut, litFresh_litClass_define, Spec.declare]
+    | field l i => rfl
+    | index l i => rfl
+    | deref l => rfl
+  | false =>
+    simp only [Bool.false_eq_true, if_false]
+    cases l with
+    | var x =>
+      simp only [resolve, bind, Except.bind]
+      cases hv : st.var x with
+      | error e => rfl
+      | ok d =>
+        simp only
+        rcases evalSlots_cases st (elems.map (·.2)) with ⟨e, h1, h2⟩ | ⟨ss, st1, vs, h1, h2, h3, h4⟩
+        · simp [h1, h2]
+        · simp only [h1, h2, h3]
+          cases buildLit zero (elems.map (·.1)) vs with
+          | error e => rfl
+          | ok v => simp [storeShortcut, litFresh_litClass_assign, bind, Except.bind, h4.var x, hv]
+    | field l i =>
+      simp only [bind, Except.bind]
+      cases resolve st (.field l i) with
+      | error e => rfl
+      | ok d =>
+        simp only
+        rcases evalSlots_cases st (elems.map (·.2)) with ⟨e, h1, h2⟩ | ⟨ss, st1, vs, h1, h2, h3, _⟩
+        · simp [h1, h2]
+        · simp [h1, h2, h3]
+    | index l i =>
+      simp only [bind, Except.bind]
+      cases resolve st (.index l i) with
+      | error e => rfl
+      | ok d =>
+        simp only
+        rcases evalSlots_cases st (elems.map (·.2)) with ⟨e, h1, h2⟩ | ⟨ss, st1, vs, h1, h2, h3, _⟩
+        · simp [h1, h2]
+        · simp [h1, h2, h3]
+    | deref l =>
+      simp only [bind, Except.bind]
+      cases resolve st (.deref l) with
+      | error e => rfl
+      | ok d =>
+        simp only
+        rcases evalSlots_cases st (elems.map (·.2)) with ⟨e, h1, h2⟩ | ⟨ss, st1, vs, h1, h2, h3, _⟩
+        · simp [h1, h2]
+        · simp [h1, h2, h3]
+
 /-- `l = <-c` / `x := <-c`: since commit 177a151 of the repository the received value is assigned (declared) like any other value -/
 theorem recvY_spec (st : St) (isDef : Bool) (l : LExp) (r : RExp) :
     recvY share st isDef l r = Spec.recv st isDef l r := by
@@ -98,6 +168,7 @@ theorem sopY_spec (G : Growth) (st : St) (o : SOp) (reexec : Bool) : sopY share 
   | mapSet m k r => exact mapSetY_spec st m k r
   | mapDel m k => rfl
   | lookup2 isDef x ok m k zero rdx rdok => exact lookup2Y_spec st reexec isDef x ok m k zero rdx rdok
+  | complit isDef l isStruct zero elems => exact complitY_spec st reexec isDef l isStruct zero elems
   | recv isDef l r => exact recvY_spec st isDef l r
   | assert2 isDef x ok r succ zero rdx rdok => exact assert2Y_spec st reexec isDef x ok r succ zero rdx rdok
   | callMut isDef l sel k arg => exact callMutY_spec st isDef l sel k arg
